@@ -48,24 +48,29 @@ package lfs
 // delivers; S below is old(rrest(reader)), the whole input.  decodes_ok(b)
 // says that decodeKV accepts the bytes b.  has_chunk/chunk describe how many
 // bytes the next Read of a composed reader returns.
+// (The two @def clauses define decodes_ok / err_isdecode: they are assumed at
+// call sites and not obligations of the body.)
 //@ func decodeKV
-//@   assumed
-//@   props C01 C08
+//@   props C01 C08 C07
 //@   modifies fresh
-//@   ensures (result1 == nil) == decodes_ok(bytesOf(data))
+//@   ensures @def (result1 == nil) == decodes_ok(bytesOf(data))
+//@   ensures @def result1 != nil ==> err_isdecode(result1) && !err_cleanptr(result1)
 //@   ensures result1 == nil ==> result0 != nil && isfresh(result0)
-//@   ensures result1 != nil ==> result0 == nil && err_isdecode(result1) && !err_cleanptr(result1)
+//@   ensures result1 != nil ==> result0 == nil
+//@   ensures @C07 result1 == nil ==> isoid(result0.Oid) && result0.Size >= 0
+//@   ensures @C07 result1 == nil && len(result0.Extensions) > 0 ==> exts_unique(result0.Extensions) && exts_sorted(result0.Extensions)
 
 // DecodeFrom loses nothing of the stream, and decides "pointer or not" on the
 // whole input when it is shorter than 1024 bytes - however it is chunked.
 //@ func DecodeFrom
-//@   props C01 C08
+//@   props C01 C08 C07
 //@   requires @inv reader != nil
 //@   modifies fresh, ghost rrest[reader]
 //@   ensures result1 != nil && isfresh(vref(result1)) && rrest(result1) == old(rrest(reader))
 //@   ensures reads_ok(reader) ==> reads_ok(result1) && (result2 == nil || err_isdecode(result2))
 //@   ensures result2 == nil || err_isdecode(result2) ==> rrest(reader) == bsub(old(rrest(reader)), chunk(result1), len(old(rrest(reader))))
 //@   ensures !err_cleanptr(result2)
+//@   ensures @C07 result2 == nil && len(old(rrest(reader))) > 0 && len(old(rrest(reader))) < 1024 && result0.Size != 0 ==> result0.Canonical == (penc(result0) == old(rrest(reader)))
 //@   ensures result2 == nil || err_isdecode(result2) ==> has_chunk(result1)
 //@   ensures len(old(rrest(reader))) < 1024 && (result2 == nil || err_isdecode(result2)) ==> chunk(result1) == len(old(rrest(reader)))
 //@   ensures len(old(rrest(reader))) >= 1024 && (result2 == nil || err_isdecode(result2)) ==> chunk(result1) == 1024
@@ -114,3 +119,37 @@ package lfs
 //@   assumed
 //@   props C01 C08
 //@   modifies all
+
+// C07: strictness of the decoder.
+//@ func parseOid
+//@   props C07
+//@   modifies fresh
+//@   ensures result1 == nil ==> isoid(result0)
+
+//@ func parsePointerExtension
+//@   props C07
+//@   modifies fresh
+//@   ensures result1 == nil ==> result0 != nil && isfresh(result0) && isoid(result0.Oid) && result0.Priority >= 0
+
+// (definitional: exts_unique(s) abbreviates "no two elements of s have the
+// same priority"; it is established only by this function returning nil)
+//@ func validatePointerExtensions
+//@   props C07
+//@   modifies fresh
+//@   ensures @def result == nil ==> exts_unique(exts)
+
+//@ func (*Pointer).Encoded
+//@   props C07 C01
+//@   modifies fresh
+//@   ensures p.Size == 0 ==> result == ""
+//@   ensures @def p.Size != 0 ==> result == penc(p)
+
+//@ func NewPointer
+//@   props C07
+//@   modifies fresh
+//@   ensures result != nil && isfresh(result) && result.Oid == oid && result.Size == size && result.Extensions == exts && result.Canonical
+
+//@ func (ByPriority).Less
+//@   props C07
+//@   pure
+//@   ensures result == (p[i].Priority < p[j].Priority)
